@@ -2,6 +2,7 @@
    generator stops, every start symbol is exhausted and everything it popped was yielded. -/
 import PS.Proofs.Enum.UComplete
 import PS.Proofs.Enum.UBridge
+import PS.Proofs.Enum.GInst
 namespace PS.UHS
 open PS PS.G
 set_option linter.unusedSectionVars false
@@ -357,6 +358,7 @@ theorem take_complete (R : RHyp E rank Good) (fuel k : Nat) (s' : St U π) (out 
     · have := hex.1; rw [hu.1] at this; cases this
     · exact hf
   have hp := exhausted_complete R.ohyp hc.og.base hc.og.all (rank nt) nt rfl hfull hex.2.1 p hd
+    (PS.HG.clean_of_all E.filter R.nofilter p)
   obtain ⟨x, hx, hxe⟩ := List.mem_map.mp (hex.2.2 p hp)
   rw [hout, List.mem_reverse]
   exact List.mem_map.mpr ⟨x, hx, by rw [hxe]⟩
